@@ -1,6 +1,7 @@
 import Driver.Common
 import DcVerif.Model.RingLabel
 import DcVerif.Model.RingMulti
+import DcVerif.Model.RingPay
 /-!
 Trace replay for the ring-buffer properties C04, C05, C06, C13, C14.
 
@@ -30,9 +31,12 @@ structure RCfg where
   drain : Bool := true
 deriving Repr
 
+/-- the harness' mutable handler: `event * 31 + (k*16 + j + 1)` (wrapping) -/
+def transform (v k j : Nat) : Nat := (v * 31 + (k * 16 + j + 1)) % 2 ^ 64
+
 /-- the model a trace is replayed on: single-producer or multi-producer pipeline -/
 inductive AnyModel
-  | single (x : Ring.PSt)
+  | single (c : RingPay.PCfg) (x : RingPay.PaySt)     -- system state + slot layer
   | multi (x : RingMulti.MSt)
 
 inductive AnyTid
@@ -49,7 +53,7 @@ def AnyModel.tid (md : AnyModel) (t : String) : Option AnyTid :=
       | _ => none
     else none
   match md with
-  | .single _ =>
+  | .single _ _ =>
     if t == "M" then some (.s .prod) else hnd.map (fun (k, j) => .s (.cons k j))
   | .multi _ =>
     if t == "M" then some (.m .drainer)
@@ -58,30 +62,39 @@ def AnyModel.tid (md : AnyModel) (t : String) : Option AnyTid :=
 
 def AnyModel.skip (md : AnyModel) (t : AnyTid) : AnyModel :=
   match md, t with
-  | .single x, .s t => .single (Ring.skipInternal x t 16)
+  | .single c x, .s t => .single c { x with x := Ring.skipInternal x.x t 16 }
   | .multi x, .m t => .multi (RingMulti.skipInternalM x t 16)
   | md, _ => md
 
 def AnyModel.label (md : AnyModel) (t : AnyTid) : Option Ring.Label :=
   match md, t with
-  | .single x, .s t => Ring.label x t
+  | .single _ x, .s t => Ring.label x.x t
   | .multi x, .m t => RingMulti.labelM x t
   | _, _ => none
 
 def AnyModel.enabled (md : AnyModel) (t : AnyTid) : Bool :=
   match md, t with
-  | .single x, .s t => Ring.enabled x t
+  | .single _ x, .s t => Ring.enabled x.x t
   | .multi x, .m t => RingMulti.enabledM x t
   | _, _ => false
 
 def AnyModel.step (md : AnyModel) (t : AnyTid) : AnyModel :=
   match md, t with
-  | .single x, .s t => .single (Ring.stepX x t)
+  | .single c x, .s t => .single c (RingPay.stepPay c x t)
   | .multi x, .m t => .multi (RingMulti.stepM x t)
   | md, _ => md
 
+/-- payload the model expects for the next `handle` / `write` of the thread (single producer only) -/
+def AnyModel.payload (md : AnyModel) (t : AnyTid) : Option Nat :=
+  match md, t with
+  | .single _ x, .s (.cons k j) => let cc := x.x.s.cons k j; some (x.slot (cc.i % x.x.s.n))
+  | .single c x, .s .prod => some (c.pay x.x.p.w)
+  | _, _ => none
+
 def AnyModel.compact : AnyModel → AnyModel
-  | .single x => .single (Ring.compact x)
+  | .single c x =>
+    let arr := ((List.range x.x.s.n).map x.slot).toArray
+    .single c { x := Ring.compact x.x, slot := fun i => arr.getD i 0, seen := fun _ _ => [] }
   | .multi x => .multi (RingMulti.compactM x)
 
 structure St where
@@ -111,7 +124,13 @@ def mkModel (c : RCfg) : AnyModel :=
   let hs := c.stages.map (·.length)
   let harr := hs.toArray
   if c.multi then .multi (RingMulti.mkM c.n c.stages.length (fun k => harr.getD k 0) c.block c.writers)
-  else .single (Ring.mk c.n c.stages.length (fun k => harr.getD k 0) c.block (c.writers.headD []))
+  else
+    let st := c.stages.toArray.map (·.toArray)
+    let cfg : RingPay.PCfg :=
+      { pay := fun q => 4294967296 + q + 1,          -- what the harness' single writer stores: ((0+1) << 32) | (q+1)
+        mutH := fun k j => (st.getD k #[]).getD j false,
+        tf := fun k j v => transform v k j }
+    .single cfg (RingPay.mkPay c.n c.stages.length (fun k => harr.getD k 0) c.block (c.writers.headD []))
 
 def parseTid (t : String) : Option Ring.Tid :=
   if t == "M" then some .prod
@@ -187,8 +206,10 @@ def replay (s : St) (e : Ev) : St × List String :=
           | "ld" | "ldb" => e.args.getD 1 "" == lab.ord && obsOk
           | "cas" => e.args.getD 2 "" == toString (lab.val.getD 0) && e.args.getD 3 "" == lab.ord && obsOk
           | "for" | "fand" => e.args.getD 2 "" == lab.ord && obsOk
-          | "handle" => e.args.getD 2 "" == toString (lab.val.getD 0) && e.args.getD 4 "" == (if lab.eob then "1" else "0")
-          | "write" => e.args.getD 0 "" == toString (lab.val.getD 0)
+          | "handle" => e.args.getD 2 "" == toString (lab.val.getD 0) && e.args.getD 4 "" == (if lab.eob then "1" else "0") &&
+              (match md.payload t with | some v => e.args.getD 3 "" == toString v | none => true)
+          | "write" => e.args.getD 0 "" == toString (lab.val.getD 0) &&
+              (match md.payload t with | some v => e.args.getD 1 "" == toString v | none => true)
           | _ => true
         if !okVal then fail "value/ordering/observation" else
         if !md.enabled t then fail "model-thread-not-enabled" else
@@ -222,7 +243,6 @@ def writesOf (evs : Array Ev) : List (Nat × Nat × Nat × String) :=
   (evs.toList.zipIdx).filterMap fun (e, pos) =>
     if e.kind == "write" then some (natAt e.args 0, natAt e.args 1, pos, e.tid) else none
 
-def transform (v k j : Nat) : Nat := (v * 31 + (k * 16 + j + 1)) % 2 ^ 64
 
 /-- expected payload seen by a handler of stage `k` for a written value: transformed by the mutable handlers of the
 earlier stages in stage order (`none` when an earlier stage mixes a mutable handler with others: F9 topologies) -/
@@ -468,9 +488,9 @@ def finish (s : St) (status : String) : List String :=
     | "C14" => specC14 s status
     | _ => []
   let modelEnd := match s.model, s.modelLost, status with
-    | some (.single x), false, "ok" =>
+    | some (.single _ px), false, "ok" =>
       -- at the end every model thread must have terminated as well
-      let x := Ring.skipInternal x .prod 16
+      let x := Ring.skipInternal px.x .prod 16
       if x.p.pc != .done then [s!"MISMATCH run complete but model producer is at {repr x.p.pc}"] else []
     | some (.multi x), false, "ok" =>
       if x.dr.pc != .done then [s!"MISMATCH run complete but model drainer is at {repr x.dr.pc}"] else []
